@@ -25,11 +25,19 @@ import sys
 sys.path.insert(0, os.path.join(os.path.dirname(os.path.abspath(__file__)), "..", "lib"))
 import vlib
 
+# (template body, sink pattern index in sinks.json: 1 = <a href>, 2 = <form action>, signature)
+# HtmlTok lower-cases attribute names, so HREF / Action ARE the href / action attributes for every HTML consumer.
 BAD = {
-    "bad_href": 'package tc\n\ntempl bad(s string) {\n\t<a href={ s }>x</a>\n}\n',
-    "bad_action": 'package tc\n\ntempl bad(s string) {\n\t<form action={ s }>x</form>\n}\n',
-    "bad_href_conditional": 'package tc\n\ntempl bad(s string, b bool) {\n\t<a\n\t\tif b {\n\t\t\thref={ s }\n\t\t}\n\t>x</a>\n}\n',
+    "bad_href": ('<a href={ s }>x</a>', 1, "UrlTyping.PlainStringCompiles"),
+    "bad_action": ('<form action={ s }>x</form>', 2, "UrlTyping.PlainStringCompiles"),
+    "bad_href_conditional": ('<a\n\t\tif s != "" {\n\t\t\thref={ s }\n\t\t}\n\t>x</a>', 1, "UrlTyping.PlainStringCompiles"),
+    "bad_href_attrcase": ('<a HREF={ s }>x</a>', 1, "UrlTyping.AttrNameCase"),
+    "bad_action_attrcase": ('<form Action={ s }>x</form>', 2, "UrlTyping.AttrNameCase"),
 }
+TEMPLATE = 'package tc\n\ntempl Bad(s string) {\n\t%s\n}\n'
+RUNNER = ('package main\n\nimport (\n\t"context"\n\t"os"\n\n\ttc "verifharness/c04tc/%s"\n)\n\n'
+          'func main() {\n\tif err := tc.Bad(os.Args[1]).Render(context.Background(), os.Stdout); err != nil {\n\t\tpanic(err)\n\t}\n}\n')
+ATTACK = "javascript:alert(1)"
 GOOD = ('package tc\n\ntempl good(s string, u templ.SafeURL) {\n\t<a href={ templ.URL(s) }>x</a>\n\t<a href={ u }>y</a>\n'
         '\t<form action={ templ.SafeURL(s) }>x</form>\n\t<link href={ s }/>\n}\n')
 
@@ -66,36 +74,42 @@ def run_trace_shards(ck, shard_files, sinks_json, name):
 
 
 def typecheck(ck, hd):
-    """Second clause: a plain string cannot fill href on <a> / action on <form>."""
+    """Second clause: a plain string cannot fill href on <a> / action on <form>.
+    Returns [(name, signature, sink index, rendered output)] for the templates that DO compile: they are rendered
+    with a javascript: URL and the output goes through TraceSinksUrl like every other case."""
     root = os.path.join(hd, "c04tc")
-    for name, src in list(BAD.items()) + [("good", GOOD)]:
-        d = os.path.join(root, name)
-        os.makedirs(d)
-        with open(os.path.join(d, "x.templ"), "w") as fh:
-            fh.write(src)
+    for name, (body, _, _) in BAD.items():
+        os.makedirs(os.path.join(root, name))
+        with open(os.path.join(root, name, "x.templ"), "w") as fh:
+            fh.write(TEMPLATE % body)
+    os.makedirs(os.path.join(root, "good"))
+    with open(os.path.join(root, "good", "x.templ"), "w") as fh:
+        fh.write(GOOD)
     vlib.templ_generate(root)
     p = vlib.run(["go", "build", "./c04tc/good"], cwd=hd, check=False)
     if p.returncode != 0:
         raise vlib.InfraError("control template with templ.URL / SafeURL-typed href and action does not compile:\n%s" % p.stderr.decode()[-1500:])
-    n = 0
-    for name in BAD:
+    n, compiled = 0, []
+    for name, (body, sink, sig) in BAD.items():
         if not os.path.exists(os.path.join(root, name, "x_templ.go")):
             raise vlib.InfraError("templ generate produced no code for %s" % name)
         p = vlib.run(["go", "build", "./c04tc/" + name], cwd=hd, check=False)
         err = p.stderr.decode(errors="replace")
         if p.returncode == 0:
-            gen = open(os.path.join(root, name, "x_templ.go")).read()
-            decl = [l.strip() for l in gen.splitlines() if "templ_7745c5c3_Var" in l and "=" in l and " s" in l][:3]
-            ck.violation("UrlTyping.PlainStringCompiles",
-                         "a generated template whose %s expression is a plain string compiles: the value reaches the attribute without templ.URL" % name[4:].replace("_", " "),
-                         {"template": BAD[name], "generated": decl,
-                          "reproduce": "templ generate the template and go build it against the repository"})
+            rd = os.path.join(root, "run_" + name)
+            os.makedirs(rd)
+            with open(os.path.join(rd, "main.go"), "w") as fh:
+                fh.write(RUNNER % name)
+            binp = vlib.go_build("./c04tc/run_" + name, "c04tc_" + name, cwd=hd)
+            out = vlib.run([binp, ATTACK]).stdout.decode(errors="replace")
+            compiled.append((name, sig, sink, body, out))
         elif "templ.SafeURL" not in err:
             raise vlib.InfraError("%s fails to compile for another reason than the SafeURL typing:\n%s" % (name, err[-1500:]))
         else:
             n += 1
     ck.set("typecheck_templates_rejected", n)
     ck.set("typecheck_templates", len(BAD))
+    return compiled
 
 
 def main():
@@ -105,7 +119,7 @@ def main():
 
     # --- MC ----------------------------------------------------------------------------------------------
     with concurrent.futures.ThreadPoolExecutor(max_workers=4) as ex:
-        fmc = ex.submit(vlib.tlc, "SinksUrl", "SinksUrl_mc.cfg", workers=1, timeout=600, coverage=thorough)
+        fmc = ex.submit(vlib.tlc, "SinksUrl", "SinksUrl_mc.cfg", workers=1, timeout=600)
         fmd = ex.submit(vlib.tlc, "SinksUrl", "SinksUrl_direct.cfg", workers=1, timeout=600)
         fneg = ex.submit(vlib.tlc, "SinksUrl", "SinksUrl_neg.cfg", workers=1, timeout=600)
         fgen = ex.submit(vlib.tlc, "SinksUrl", "SinksUrl_gen.cfg", workers=1, timeout=600)
@@ -115,8 +129,6 @@ def main():
         raise vlib.InfraError("SinksUrl (templ.URL as coded) violates %s in the model; reproduce the counterexample on the real "
                               "code before calling it a defect:\n%s" % (mc.violated, mc.out[-3000:]))
     ck.add_tlc(mc, "SinksUrl_mc (html pipeline, all input lengths)")
-    if thorough and mc.coverage_zero:
-        raise vlib.InfraError("spec actions never taken: %s" % mc.coverage_zero)
     if not md.ok:
         raise vlib.InfraError("SinksUrl direct pipeline violates %s in the model" % md.violated)
     ck.add_tlc(md, "SinksUrl_direct (no HTML layer)")
@@ -139,7 +151,7 @@ def main():
     vlib.templ_generate(os.path.join(hd, "c04"))
     binp = vlib.go_build("./c04", "c04")
     vlib.log("harness built")
-    typecheck(ck, hd)
+    compiled = typecheck(ck, hd)
     vlib.log("typecheck clause done")
     outdir = os.path.join(sc, "url")
     os.makedirs(outdir)
@@ -167,7 +179,34 @@ def main():
     # --- VAL ----------------------------------------------------------------------------------------------------------
     sinks_json = open(os.path.join(outdir, "sinks.json")).read()
     shards = [os.path.join(outdir, "trace-%d.ndjson" % i) for i in range(nshards)]
+    # binding self-test (every run): corrupted records -- a javascript: URL "passed", a value that is neither the input
+    # nor the failure URL, an unescaped quote -- must be rejected by the trace spec, each for its reason
+    sy = lambda t: [ord(c) for c in t]
+    CAN = {999999991: ("javascript:alert(1)", '<a href="javascript:alert(1)">x</a>', "unsafe-pass"),
+           999999992: ("javascript:alert(1)", '<a href="about:blank">x</a>', "not-fixed"),
+           999999993: ('x"y', '<a href="x"y">x</a>', "structure"),
+           999999994: ("java&#9;script:alert(1)", '<a href="java&#9;script:alert(1)">x</a>', "not-fixed")}
+    TC0 = 999990000
+    with open(shards[0], "a") as fh:
+        for cid, (i, o, _) in CAN.items():
+            fh.write(json.dumps({"id": cid, "sink": 1, "in": sy(i), "out": sy(o)}) + "\n")
+        # plain-string href/action templates that compiled, rendered with a javascript: URL
+        for k, (name, sig, sink, body, out) in enumerate(compiled):
+            fh.write(json.dumps({"id": TC0 + k, "sink": sink, "in": sy(ATTACK), "out": sy(out)}) + "\n")
     specfails, tdrift, validated = run_trace_shards(ck, shards, sinks_json, "TraceSinksUrl (real rendered href/action)")
+    for cid, (_, _, want) in CAN.items():
+        if specfails.pop(cid, None) != want:
+            raise vlib.InfraError("binding self-test failed: corrupted trace record %d was not rejected as %s" % (cid, want))
+    validated -= len(CAN) + len(compiled)
+    for k, (name, sig, sink, body, out) in enumerate(compiled):
+        if specfails.pop(TC0 + k, None) != "unsafe-pass":
+            raise vlib.InfraError("template %s compiles with a plain string but its rendering %r is not an unsafe pass for the trace spec" % (name, out))
+        ck.violation(sig, "a template whose %s expression is a plain string compiles and renders %s: the value reaches the attribute "
+                          "without templ.URL (HtmlTok reads it as the %s attribute; UrlScheme resolves scheme javascript)" % (
+                              body.split("=")[0].split()[-1] if "=" in body else name, out.strip(), "href" if sink == 1 else "action"),
+                     {"template": TEMPLATE % body, "input": ATTACK, "output": out,
+                      "reproduce": "templ generate the template, go build, render Bad(%r)" % ATTACK})
+    ck.set("binding_selftest", "%d corrupted records rejected" % len(CAN))
     if validated != s["trace_lines"]:
         raise vlib.InfraError("trace validation consumed %d of %d logged cases" % (validated, s["trace_lines"]))
     vlib.log("trace validation done")
